@@ -148,4 +148,19 @@ Verdict(c) ==
 
 \* when accepted: the one header reported, and the indices of a range
 ExpCount(c) == NumObjects(c.q, c.a, c.b)
+
+\* ---- device attributes (group 0): <data type code> <length> <value>; a case is [v, set, code, len, delta, fnc]
+\* the data type the value must be classified as, or "reject"
+AttrType(a) ==
+    IF a.delta # 0 THEN "reject"
+    ELSE CASE a.code = 1 -> "VSTR"
+           [] a.code = 2 -> IF a.len \in {1, 2, 4} THEN "UINT" ELSE "reject"
+           [] a.code = 3 -> IF a.len \in {1, 2, 4} THEN "INT" ELSE "reject"
+           [] a.code = 4 -> IF a.len \in {4, 8} THEN "FLT" ELSE "reject"
+           [] a.code = 5 -> "OSTR"
+           [] a.code = 6 -> "BSTR"
+           [] a.code = 7 -> IF a.len = 6 THEN "TIME" ELSE "reject"
+           [] a.code = 254 -> IF a.len % 2 = 0 THEN "LIST" ELSE "reject"
+           [] a.code = 255 -> "either"
+           [] OTHER -> "reject"
 =============================================================================
